@@ -197,6 +197,7 @@ def run(chk):
     # (bond-index: chain_rules.compress_bond_rule; decomposition-axes: tree_rules)
     from . import tree_rules as TR
     TR.decomposition_axes(chk, src, topologies=("generic",))
+    TR.compress_sweep(chk, src)          # every bond of a tree is truncated once, at its centre, with the limit of the call
     bond_index_rule(chk, src, "bond-index")
 
 
